@@ -456,6 +456,15 @@ class SymEval:
         elif k == "pstruct":
             for f in pat["fields"]:
                 self.bind(f["pat"], self.field(val, f["name"]), env)
+        elif k == "por":
+            # all alternatives bind the same names: bind through the first one, tagging the payload as "either arm"
+            alts = pat["ps"]
+            if all(a.get("k") == "ptstruct" and len(a["ps"]) == 1 for a in alts):
+                self.bind(alts[0]["ps"][0], app("either_payload", val), env)
+            else:
+                self.bind(alts[0], val, env)
+        elif k in ("plit", "ppath", "prange"):
+            pass
         else:
             raise Unsupported("pattern " + str(k))
 
@@ -825,6 +834,19 @@ def subst(v, f):
     if isinstance(v, list):
         return [subst(x, f) for x in v]
     return v
+
+
+def subst_atom(v, atom, value):
+    """replace every top-level occurrence of `atom` in polynomial v by the polynomial `value`"""
+    out = Poly()
+    for mono, c in v.t.items():
+        term = Poly.const(c)
+        for a, e in mono:
+            base = value if a == atom else Poly.atom(a)
+            for _ in range(e):
+                term = term * base
+        out = out + term
+    return out
 
 
 def _subst_key(k, f):
